@@ -116,15 +116,20 @@ StepProvider(e) ==
   IN /\ S' = NextS(cs, e.post)
      /\ drift' = drift \cup DriftIf(cs, e.post, "Provider: post-state differs")
                        \cup FailIf(~ok, D("Provider: unexpected call"))
+                       \* the provider is asked about the snapshot's own height (a wrong answer
+                       \* shows at Offer / End, where TrustedOnly is judged)
+                       \cup FailIf(e.h # e.s.h, D("Provider: asked about another height"))
      /\ G' = FreshQueue(g1, e)
-     \* the provider is asked about the snapshot's own height (its answers are a function of it)
-     /\ viol' = viol \cup FailIf(e.h # e.s.h, V("TrustedOnly", "provider_asked_other_height"))
+     /\ UNCHANGED viol
 
 StepOffer(e) ==
   LET ok == S.sy.pc = "offer" /\ S.sy.cur = e.s /\ S.sy.tah = e.apphash
       pre == [S EXCEPT !.sy.pc = "offer", !.sy.cur = e.s, !.sy.tah = e.apphash]
       cs == SettleSet(XOffer(pre, e.v))
-      g0 == [G EXCEPT !.applied = {}, !.verified = FALSE, !.cur = e.s, !.retry = FALSE]
+      \* nothing was applied or asked to be refetched yet in a sync that is not a retry
+      \* (also keeps the ghost sane after a step the driver did not intend, e.g. a timeout)
+      gr == IF G.retry THEN G ELSE [G EXCEPT !.must = {}, !.used = {}]
+      g0 == [gr EXCEPT !.applied = {}, !.verified = FALSE, !.cur = e.s, !.retry = FALSE]
       g1 == CASE e.v = "reject"        -> [g0 EXCEPT !.rej.snap = @ \cup {e.s}]
               [] e.v = "reject_format" -> [g0 EXCEPT !.rej.fmt = @ \cup {e.s.f}]
               [] e.v = "reject_sender" -> [g0 EXCEPT !.rej.peer = @ \cup PeersOf(S.pool, e.s)]
@@ -292,7 +297,7 @@ StepF(e) ==
   /\ S' = S /\ drift' = drift
   /\ CASE e.ev = "Provider" ->
             /\ G' = Settle(IF e.ans = "fail" THEN [G EXCEPT !.rej.snap = @ \cup {e.s}] ELSE G)
-            /\ viol' = viol \cup FailIf(e.h # e.s.h, V("TrustedOnly", "provider_asked_other_height"))
+            /\ UNCHANGED viol
        [] e.ev = "Offer" -> FOffer(e)
        [] e.ev = "Apply" -> FApply(e)
        [] e.ev = "Info"  -> G' = Settle([G EXCEPT !.verified = InfoVerifies(e.s, e.ans)]) /\ UNCHANGED viol
